@@ -397,6 +397,7 @@ def run_lqr_problem(ck, rng, prob, pid):
     n_solves = int(rng.integers(1, 6))
     x_init = prob.new_x_init(rng)
     seen = {}
+    kept_ut = None
     first_disturbed = rng.random() < 0.5
     for j in range(n_solves):
         hist = "first" if j == 0 else "repeat"
@@ -419,6 +420,15 @@ def run_lqr_problem(ck, rng, prob, pid):
         if uk == "hold":
             ck.mark("solve/expanded-u_traj")
         ut = nominal(rng, prob, uk)
+        if j > 0 and kept_ut is not None and kept_ut.is_contiguous() and rng.random() < 0.5:
+            # receding-horizon style history: the SAME nominal tensor object as in the previous solve, updated in place
+            # (shifted and refilled) in between - the solve must depend on its current contents only
+            with torch.no_grad():
+                kept_ut[:, :-1] = kept_ut[:, 1:].clone()
+                kept_ut[:, -1] = tt(rng.standard_normal((prob.B, prob.nc)), prob.dtype)
+            ut, uk = kept_ut, "same-tensor-updated-in-place"
+            ck.mark("solve/same-u_traj-object-updated-in-place")
+        kept_ut = ut if (ut is not None and ut.is_contiguous()) else kept_ut
         ut_before = None if ut is None else ut.clone()
         dt = 1 if prob.ltv() else rng.choice([1, 1, 2, 0.5])
         regime = lqr_regime(prob, uk, hist)
@@ -672,7 +682,7 @@ def run(ck):
         run_mpc_nls(ck, rng, "f64" if i % 2 == 0 else "f32", (ck.shard, pid))
 
     ck.require("solve/second-on-same-object", "solve/second-on-same-object/LTV", "solve/systime!=0-before-first",
-               "solve/nonzero-u_traj", "solve/expanded-u_traj", "family/LTI", "family/LTI-shared", "family/LTV-idx", "family/LTV-func",
+               "solve/nonzero-u_traj", "solve/expanded-u_traj", "solve/same-u_traj-object-updated-in-place", "family/LTI", "family/LTI-shared", "family/LTV-idx", "family/LTV-func",
                "dtype/f64", "dtype/f32", "B=1", "B=2", "B=3", "T=1", "T=2", "T=20",
                "n_state=1/T>=2/B>=2", "n_state=1/T>=2/unbatched-A", "n_state==n_ctrl", "kappa>=1e5", "rho>1",
                "c1/none", "c1/const", "c1/tv", "Q/per-step", "Q/time-invariant", "LTV-idx/period<T", "LTV-idx/period>=T",
